@@ -743,3 +743,9 @@ func init() {
 		return strFromBytes(out)
 	}
 }
+
+func init() {
+	clone := func(in *Interp, fr *frame, args []value) value { return args[0] } // strings are immutable values here
+	externals["internal/stringslite.Clone"] = clone
+	externals["strings.Clone"] = clone
+}
